@@ -185,7 +185,15 @@ def run(cx):
     sc = [c for c in an.calls() if c.q == T.Q_SET_STATE and pa.root(an, c.args[1])[0] == "agg" and pa.root(an, c.args[1])[2] == "Completed"]
     ok = len(sc) == 1 and any(g.root[0] == "call" and g.root[1].endswith("Task::is_auto_complete") and g.truth is True for g in guards_of(m, an, sc[0].b, mode="alias"))
     cx.ob("C15.R3", "act:stays-open", ok, "Act::next completes the act only if `is_auto_complete()` (a sub-process act stays open until the return action)", sc[0].loc if sc else an.loc())
-    cx.floor("C15.R3", 6)
+    # the same in Act::review: every write of a terminal state on the act itself that its children's endings can cause
+    # (Completed when all are done) is under is_auto_complete. (Skipped / the error path pass a child's fate on and are not
+    # completions by the children.)
+    ar = m.one(r"act::<impl acts::scheduler::ActTask for acts::model::act::Act>::review$")
+    sc2 = [c for c in ar.calls() if c.q == T.Q_SET_STATE and pa.root(ar, c.args[1])[0] == "agg" and pa.root(ar, c.args[1])[2] == "Completed"
+           and pa.root(ar, c.args[0])[0] == "call" and pa.root(ar, c.args[0])[1] == T.Q_CTX_TASK]
+    ok2 = bool(sc2) and all(any(g.root[0] == "call" and g.root[1].endswith("Task::is_auto_complete") and g.truth is True for g in guards_of(m, ar, c.b, mode="alias")) for c in sc2)
+    cx.ob("C15.R3", "act:stays-open:review", ok2, "Act::review completes the act only if `is_auto_complete()` (reviewed by a child that ended - a hook msg on a subflow act - it must not complete an act that waits for its sub workflow)", sc2[0].loc if sc2 else ar.loc())
+    cx.floor("C15.R3", 7)
 
 
 def _ctx_task_block(f):
